@@ -45,13 +45,15 @@ def unrelated_maps(rng):
     out = [L("M", nm("other.net"), wild=True, mapid=28002), L("M", nm("x.other.net"), mapid=28003), L("8", nm("other.net"), wild=True, mapid=28004)]
     for mid in (28002, 28003, 28004):
         out.append(semlib.net(rng.choice([1, 2]), rng.choice(["10.1.0.0/16", "10.0.0.0/8", "10.1.0.0/24", "10.2.3.4/32"]), mid))
-    return rng.sample(out[:3], rng.randrange(1, 4)) + out[3:]
+    # the default map (subnets without a map id) does not apply to names that have a map of their own, and never to a client subnet
+    dflt = [semlib.net(rng.choice([1, 2, 9]), c, 0) for c in rng.sample(["192.0.2.0/24", "10.1.5.0/24", "2001:db8::/32", "198.51.100.0/24", "10.0.0.0/8"], rng.randrange(0, 3))]
+    return rng.sample(out[:3], rng.randrange(1, 4)) + out[3:] + dflt
 
 
 def rg_pair(script, base, edit_before, edit_after, loc, rng):
     """F = base + edit_before, F' = base + edit_after; all queries of clients in `loc` compared"""
-    semfam.rg_script(script, base + edit_before, rng, maxans=MAXANS, exact=True, tag="c04", locs=(loc,))
-    semfam.rg_script(script, base + edit_after, rng, maxans=MAXANS, exact=True, tag="c04", keep=True, cmp=True, locs=(loc,))
+    semfam.rg_script(script, base + edit_before, rng, maxans=MAXANS, exact=True, tag="c04", locs=(loc,), ecs_mod=3)
+    semfam.rg_script(script, base + edit_after, rng, maxans=MAXANS, exact=True, tag="c04", keep=True, cmp=True, locs=(loc,), ecs_mod=3)
 
 
 def erased(lines):
@@ -69,7 +71,8 @@ def erased(lines):
 
 
 def world_pair(script, rng):
-    w = semgen.gen_world(rng, nrec=18, nloc=2, with_maps=False, weights=False)
+    w = semgen.gen_world(rng, nrec=18, nloc=2, with_maps=False, weights=False,
+                         locs=sorted(rng.sample(semfam.LOC_POOL, rng.choice([2, 3]))) if rng.random() < 0.6 else None)
     zone = w.zones[0]
     locs = [l for l in w.locs if l]
     if len(locs) < 2:
@@ -155,7 +158,7 @@ def run():
             k = rng.randrange(1, 4)
             before = rng.sample(fc, rng.randrange(0, 3))
             after = rng.sample(fc, k)
-            if rng.random() < 0.3:
+            if rng.random() < 0.45:
                 after = after + unrelated_maps(rng)
             if rng.random() < 0.3 and before:
                 ch = copy.deepcopy(before[0])           # the same foreign record with another TTL
